@@ -20,6 +20,8 @@ type authFam struct {
 
 func init() { families["auth"] = func() Family { return &authFam{} } }
 
+func (f *authFam) Reseed(r *rand.Rand) { f.rng = r }
+
 func (f *authFam) Setup(cfg M, rng *rand.Rand) { f.rng = rng }
 
 var authLabels = []string{"s0", "s1", "s2", "s3", "s4", "s5"}
